@@ -1,5 +1,6 @@
 import CwPlus.Driver.Common
 import CwPlus.Model.Cw4Stake
+import CwPlus.Model.MsgWire
 import CwPlus.Model.Cw4Raw
 /-!
 Scenario `cw4stake`: op-line parser, observation renderer and property monitors (C10, and the
@@ -186,7 +187,7 @@ def err (m : MState) (tag : String) : MState × StepResult := (m, { ok := some f
 /-- Run one world transaction. -/
 def runTx (m : MState) (w : World) (kind : String) (op : Op) : MState × StepResult :=
   match tx w m.blk op with
-  | .ok (w', out) => ({ m with w := some w', heights := insertNat m.blk.height m.heights }, { ok := some true, out := [("msgs", renderMsgs out)], tag := s!"{kind}.ok" })
+  | .ok (w', out) => ({ m with w := some w', heights := insertNat m.blk.height m.heights }, { ok := some true, out := [("msgs", renderMsgs out), ("hookraw", MsgWire.hookRawOfStake out), ("xferraw", MsgWire.xferRawOfStake out)], tag := s!"{kind}.ok" })
   | .error e => err m s!"{kind}.{e}"
 
 def stepOp (m : MState) (toks : List String) : MState × StepResult :=
